@@ -36,7 +36,7 @@ var c18Scales = []float64{1, -1, 255, 1e-6, 1e6, -3.7e3, 1e-3, 1e3}
 func (e *C18) ID() string    { return "C18" }
 func (e *C18) Level() string { return "exploration" }
 func (e *C18) Rule() string {
-	return "sections: (0) self-test of the guard-page sanitizer (a deliberately over-long operand must fault); (A, exhaustive) every unit impulse of the 64- and 256-point kernels at 8 signed scales over 12 decades, and every one of the 4096 unit impulses of the 64x64 2-D kernel; (B) edge vectors (constant, alternating, ramps, steps, extremes, pixel-like integers, zero, signed zeros, subnormal constants / ramps / impulses, normal entries with subnormal differences); (C) seeded random vectors (uniform, normal, 0..255 integers, sparse, smooth) at scales 1e-6..1e6 (a tenth of them at 1e-45..1e-36, where float32 underflows gradually) in batches of 200; (D) random and image-like 64x64 inputs for the 2-D kernel; (E) dispatch: exported DCT2DHash64/DCT2DHash256 and NewPHash64Alt/NewPHash256Alt with FlagUseASM / ForwardDCT64 / ForwardDCT256 switched between the assembly and the portable kernels. Oracle per vector: bits(asm(x)) == bits(go(x)) in every lane, with the assembly operand placed flush against a PROT_NONE page (end placement and start placement alternate; the 16 KiB 2-D operand is flush on both sides; every third or fourth operand is only 4-byte aligned, 4..12 bytes from the guard page) and the canary slack re-checked; |go(x)-DCTII(x)|_inf <= 1e-5*||x||_1 against a direct O(N^2) float64 DCT-II (2.5e-5 for the two-pass 2-D kernel; asserted where the mean magnitude is at least 1e-30, below that results are subnormal and only bit-equality is asserted); float64 kernels within 1e-12*||x||_1. Non-trivial: a non-zero vector; distinct = distinct (kernel, family, scale decade, placement)."
+	return "sections: (0) self-test of the guard-page sanitizer (a deliberately over-long operand must fault); (A, exhaustive) every unit impulse of the 64- and 256-point kernels at 8 signed scales over 12 decades, and every one of the 4096 unit impulses of the 64x64 2-D kernel; (B) edge vectors (constant, alternating, ramps, steps, extremes, pixel-like integers, zero, signed zeros, subnormal constants / ramps / impulses, normal entries with subnormal differences); (C) seeded random vectors (uniform, normal, 0..255 integers, sparse, smooth) at scales 1e-6..1e6 (a tenth of them at 1e-45..1e-36, where float32 underflows gradually) in batches of 200; (D) random and image-like 64x64 inputs for the 2-D kernel; (E) dispatch (also: the exported ForwardDCT64/256 on slices shorter than the transform, flush against the guard page - they may panic, not reach behind the slice): exported DCT2DHash64/DCT2DHash256 and NewPHash64Alt/NewPHash256Alt with FlagUseASM / ForwardDCT64 / ForwardDCT256 switched between the assembly and the portable kernels. Oracle per vector: bits(asm(x)) == bits(go(x)) in every lane, with the assembly operand placed flush against a PROT_NONE page (end placement and start placement alternate; the 16 KiB 2-D operand is flush on both sides; every third or fourth operand is only 4-byte aligned, 4..12 bytes from the guard page) and the canary slack re-checked; |go(x)-DCTII(x)|_inf <= 1e-5*||x||_1 against a direct O(N^2) float64 DCT-II (2.5e-5 for the two-pass 2-D kernel; asserted where the mean magnitude is at least 1e-30, below that results are subnormal and only bit-equality is asserted); float64 kernels within 1e-12*||x||_1. Non-trivial: a non-zero vector; distinct = distinct (kernel, family, scale decade, placement)."
 }
 func (e *C18) Assumptions() []string {
 	return []string{
@@ -681,4 +681,29 @@ func (e *C18) dispatch(c *core.Ctx, r *core.Rng) {
 	}
 	c.Rec.Sig(fmt.Sprintf("dispatch/hash%d/%s", sz, sp))
 	c.Rec.Sig("dispatch/dct2dhash64/" + fam)
+	// an argument shorter than the transform: the exported kernels (as the package selected them)
+	// may refuse it (a Go panic is a refusal), they must not touch what lies behind it
+	e.restoreKernels()
+	for _, k := range []struct {
+		name string
+		n    int
+		f    func([]float32)
+	}{{"ForwardDCT64", 64, e.origF64}, {"ForwardDCT256", 256, e.origF256}} {
+		short := r.Pick(0, 1, k.n/2, k.n-1)
+		g := mon.MustGuard(4*short+4, true, 0) // one float of slack in front of the guard page would hide a 4-byte overrun: the operand ends at the page
+		op := g.Float32s()[1:]
+		for i := range op {
+			op[i] = float32(i)
+		}
+		canaryBefore, _ := g.CanaryIntact()
+		ft := mon.CatchFault(func() { k.f(op) })
+		c.Rec.Eval(1)
+		c.Rec.Count("short_operand_calls", 1)
+		if ft.Faulted {
+			c.Rec.Violation("short:"+k.name, fmt.Sprintf("%s on a slice of %d floats (flush against a PROT_NONE page) accessed memory behind its argument", k.name, short), map[string]any{"kernel": k.name, "len": short, "fault": ft.Text})
+		} else if ok, _ := g.CanaryIntact(); canaryBefore && !ok {
+			c.Rec.Violation("short:"+k.name, fmt.Sprintf("%s on a slice of %d floats wrote outside its argument (canary changed)", k.name, short), map[string]any{"kernel": k.name, "len": short})
+		}
+		g.Free()
+	}
 }
